@@ -140,7 +140,7 @@ def grep_forbidden():
     return hits
 
 
-def lean_build_and_audit(prop, log):
+def lean_build_and_audit(prop, log, tier="quick"):
     """Returns dict(ok, driver_ok, theorems, axioms{thm: [..]}, broken[list of str], log)."""
     res = {"ok": False, "driver_ok": False, "theorems": [], "axioms": {}, "broken": [], "build_s": 0.0}
     t0 = time.time()
@@ -207,6 +207,13 @@ def lean_build_and_audit(prop, log):
             hits = grep_forbidden()
             if hits:
                 res["broken"].append("forbidden constructs: " + ", ".join(hits[:8]))
+            if tier == "thorough" and pa.returncode == 0:
+                # independent re-check of the compiled theorem module (and everything it imports from this library)
+                pc = subprocess.run(["lake", "env", "leanchecker", f"PgFdr.Props.{prop}"], cwd=LEAN, capture_output=True, text=True, timeout=3000)
+                log.write(pc.stdout[-2000:] + pc.stderr[-2000:])
+                res["leanchecker"] = "ok" if pc.returncode == 0 else "failed"
+                if pc.returncode != 0:
+                    res["broken"].append("leanchecker rejected PgFdr.Props.%s: %s" % (prop, (pc.stdout + pc.stderr)[-300:]))
     res["build_s"] = round(time.time() - t0, 2)
     res["ok"] = not res["broken"]
     return res
@@ -480,7 +487,7 @@ def run_check(prop, tier="quick", seed=0, replay=None):
     known_lines = []
 
     # ---- 1. proof obligations ---------------------------------------------------------
-    b = lean_build_and_audit(prop, log)
+    b = lean_build_and_audit(prop, log, tier)
     obligations = len(b["theorems"]) if b["theorems"] else 0
     discharged = sum(1 for n in b["theorems"] if n in b["axioms"] and set(b["axioms"][n]) <= ALLOWED_AXIOMS)
     if b["broken"]:
@@ -677,6 +684,7 @@ def run_check(prop, tier="quick", seed=0, replay=None):
         "exhaustive": bool(ex) and tier == "thorough",
         "exhaustive_cases": len(ex),
         "build_s": b["build_s"],
+        "leanchecker": b.get("leanchecker", "not run (quick tier)"),
     }
     if extra_info and extra_info.get("info"):
         cov["extra_stage"] = extra_info["info"]
